@@ -236,14 +236,18 @@ def rule_R10(text, fired):
         if re.search(r'\b' + name + r'\s*\.\s*as_mut\(\)', body):
             new_params = new_params.replace(pm.group(0), f'{name}: &mut {ty}')
             text = re.sub(r'\b' + name + r'\s*\.\s*as_mut\(\)', f'Some({name})', text)
-        elif re.search(r'\b' + name + r'\s*\.\s*as_ref\(\)', body):
+            # a `&mut` handle is non-null by construction
+            text = re.sub(r'\b' + name + r'\s*\.\s*is_null\(\)', 'false', text)
+        elif re.search(r'\b' + name + r'\s*\.\s*as_ref\(\)', body) or re.search(r'\bsafe_bool_call!\(\s*' + name + r'\s*,', body):
+            # (safe_bool_call! is the crate's macro around `$self.as_ref()`; the unit extracts it with the same substitution)
             new_params = new_params.replace(pm.group(0), f'{name}: Option<&{ty}>')
             text = re.sub(r'\b' + name + r'\s*\.\s*as_ref\(\)', name, text)
+            text = re.sub(r'\b' + name + r'\s*\.\s*is_null\(\)', f'{name}.is_none()', text)
         else:
             raise Refuse(f'R10: pointer parameter {name} is used in a way the rule does not cover')
         _count(fired, 'R10')
     text = text.replace(params, new_params, 1)
-    text, n = re.subn(r'\bunsafe\s+extern\s+"C"\s+fn\b', 'fn', text)
+    text, n = re.subn(r'\b(?:unsafe\s+)?extern\s+"C"\s+fn\b', 'fn', text)
     _count(fired, 'R10', n)
     return text
 
